@@ -286,6 +286,28 @@ def analyse(mod, run, label):
         run.check(okk, "A5-bitmap-range-flag-within-what-is-stored", {"flag_means_max_below": k1, "encoder_keeps_below": kept},
                   Finding("A5-bitmap-range-flag-too-wide", ana.name, "fitsInBitmapRange", "store",
                           "fitsInBitmapRange is set for maxValue < %s but the encoder's BITMAP arm only stores values below %s: a selected array can contain a value the bitmap silently drops" % (k1, kept), loc=loc(st)))
+    # ---- A6: in the patched frame-of-reference codec (selectable by the analysis) the exception marker is not a storable offset ----
+    # marker(w) is the all-ones pattern of the width; normal values have offsets 0 .. thresholdValue - min.  The width must therefore be
+    # measured for a value strictly greater than that largest offset (or the encoder must divert offset == marker to the exceptions).
+    from .c12 import measured_values
+    pf = need_fn(mod, "varintPFORComputeThreshold"); pfi = w.fi(pf).prepare()
+    mv = measured_values(pf, w)
+    if not mv: raise AnalysisBroken("A6: no width computation in varintPFORComputeThreshold")
+    stores = {}
+    for i in pf.insts():
+        if i.op == "store":
+            fl = field_of(pf, mod, i.ops[1])
+            if fl in ("thresholdValue", "min") and i.ops[0]["k"] != "int": stores[fl] = i.ops[0]
+    if set(stores) != {"thresholdValue", "min"}: raise AnalysisBroken("A6: stores of thresholdValue / min not found in varintPFORComputeThreshold")
+    largest = pfi.lin(stores["thresholdValue"]) - pfi.lin(stores["min"])
+    pe = need_fn(mod, "varintPFOREncode")
+    diverts = any(i.op == "icmp" and i["pred"] in ("eq", "ne") and any(o["k"] == "inst" and pe.imap[o["v"]].op == "load" and field_of(pe, mod, pe.imap[o["v"]].ops[0]) == "exceptionMarker" for o in i.ops) for i in pe.insts())
+    for (val, wres, site) in mv:
+        d = pfi.lin(val) - largest
+        okm = (d.is_const() and d.c >= 1) or diverts
+        run.check(okm, "A6-pfor-marker-not-a-storable-offset", {"measured": repr(pfi.lin(val)), "largest_offset": repr(largest)},
+                  Finding("A6-pfor-marker-collides-with-an-offset", pf.name, "exceptionMarker", "width",
+                          "the offset width is measured for %r while normal values have offsets up to %r: when that offset is 2^(8*width)-1 it equals the exception marker and the value is decoded as an exception slot (lossy whenever PFOR is selected)" % (pfi.lin(val), largest), loc=loc(site)))
     # ---- A4 ----
     for i in dec.calls():
         c = i.get("callee")
@@ -308,4 +330,5 @@ def run(tier):
         "Four structural necessary conditions of losslessness of the adaptive container: header byte == reported type == dispatched type; encode and "
         "decode dispatch tables agree and cover everything the selector can return; every selector path to BITMAP implies the bitmap codec's "
         "lossless domain; no length-taking sub-decoder receives a literal length; the flag fitsInBitmapRange is only set when every value is below "
-        "the bound under which the encoder's BITMAP arm stores values (A5).")
+        "the bound under which the encoder's BITMAP arm stores values (A5); the PFOR offset width is measured for a value strictly greater than every "
+        "storable offset, so the all-ones exception marker is never a normal value (A6).")
